@@ -306,6 +306,42 @@ with vdata_sg_safe (d : vdata) {struct d} : bool :=
   | DStruct fs => fields_sg_safe fs
   end.
 
+(* every name a hand-written flattened Entry uses is a short static string (they are handed to the writer as they
+   are; only macro-generated names go through const_str_value) *)
+Fixpoint raw_short (d : edef) {struct d} : bool :=
+  match d with
+  | EStruct _ _ fs => fields_raw_short fs
+  | EEnum _ _ _ vs _ => variants_raw_short vs
+  end
+with fields_raw_short (fs : fields) {struct fs} : bool :=
+  match fs with
+  | FNil => true
+  | FCons _ k r => kind_raw_short k && fields_raw_short r
+  end
+with kind_raw_short (k : fkind) {struct k} : bool :=
+  match k with
+  | KFlatten _ _ d => raw_short d
+  | KFlattenEntry raw _ => forallb (fun nv : bytes * vcall => blen (fst nv) <=? 100) raw
+  | _ => true
+  end
+with variants_raw_short (vs : variants) {struct vs} : bool :=
+  match vs with
+  | VNil => true
+  | VCons _ _ d r => vdata_raw_short d && variants_raw_short r
+  end
+with vdata_raw_short (d : vdata) {struct d} : bool :=
+  match d with
+  | DUnit => true
+  | DTuple fs => fields_raw_short fs
+  | DStruct fs => fields_raw_short fs
+  end.
+(* a written name is a borrowed constant exactly when it is at most 100 bytes long *)
+Definition cow_kind_ok (it : item) : Prop :=
+  match it with
+  | ITimestamp _ => True
+  | IValue n b _ => b = (blen n <=? 100)
+  end.
+
 (* what the implementation's observation is compared with: the written items with the Cow kind dropped
    ([strip]) and absent values removed *)
 Definition strip (it : item) : sitem :=
